@@ -126,7 +126,7 @@ def c08c(ctx, tu):
             pushes = [e for b, e in fn.events() if e["e"] == "call" and qe(e) in (A["push_back"], A["push_front"])]
             ok = len(pushes) == 1 and qe(pushes[0]) == A["push_back"]
             if ok:
-                r = pushes[0].get("recv")
+                r = lib.resolve(fn, pushes[0].get("recv"))
                 ok = isinstance(r, list) and r[:1] == ["member"] and erase(r[1]) == field
             ctx.ob("C08.c", name, ok, pattern=fn.pat, unit=tu.name, inst=fn.q,
                    detail="" if ok else "%s must append exactly one new clause to %s (declaration order)" % (name, field))
